@@ -83,45 +83,45 @@ Theorem C16_frames_same : forall C l,
 Proof. exact frames_same. Qed.
 Print Assumptions C16_frames_same.
 
-(* FULL STATEMENT (refuted below; recorded findings C16-recursion-folding-format,
-   C16-display-suggestions, C16-str-failure):
+(* FULL STATEMENT (refuted below; recorded findings C16-display-suggestions, C16-str-failure):
      forall C fs e, ei_text C fs e = std_text (std_tb C fs e).
-   Proved outside the guards: no run of more than 3 identical entries, and the ordinary
-   kind of exception (str(value) works, the interpreter shows exactly Type: str(value)): *)
+   Proved for every call chain (recursion included, since the fix: of TracebackInfo.get_formatted)
+   and the ordinary kind of exception (str(value) works, the interpreter shows exactly
+   Type: str(value)): *)
 Theorem C16_format_partial : forall C fs e,
-  long_repeat (map (std_frame C) fs) = false -> plain_exc e = true ->
-  ei_text C fs e = std_text (std_tb C fs e).
+  plain_exc e = true -> ei_text C fs e = std_text (std_tb C fs e).
 Proof. exact format_partial. Qed.
 Print Assumptions C16_format_partial.
 
-Theorem C16_format_refuted_recursion :
-  exists fs e, plain_exc e = true /\ ei_text py_cc fs e <> std_text (std_tb py_cc fs e).
-Proof. exact format_refuted_recursion. Qed.
-Print Assumptions C16_format_refuted_recursion.
-
 Theorem C16_format_refuted_suggestion :
-  exists fs e, long_repeat (map (std_frame py_cc) fs) = false /\ hint_of e <> None /\
-               ei_text py_cc fs e <> std_text (std_tb py_cc fs e).
+  exists fs e, hint_of e <> None /\ ei_text py_cc fs e <> std_text (std_tb py_cc fs e).
 Proof. exact format_refuted_hint. Qed.
 Print Assumptions C16_format_refuted_suggestion.
 
 Theorem C16_format_refuted_str_failure :
-  exists fs e, long_repeat (map (std_frame py_cc) fs) = false /\ hint_of e <> None /\
-               ei_text py_cc fs e <> std_text (std_tb py_cc fs e).
+  exists fs e, hint_of e <> None /\ ei_text py_cc fs e <> std_text (std_tb py_cc fs e).
 Proof. exact format_refuted_str. Qed.
 Print Assumptions C16_format_refuted_str_failure.
 
-(* whatever the call chain and the exception: ExceptionInfo's text is the unfolded standard
-   rendering of the interpreter's entries and type with boltons' own message text ... *)
-Theorem C16_format_plain : forall C fs e, ei_text C fs e = plain_text (ei_tb C fs e).
-Proof. exact ei_text_plain. Qed.
-Print Assumptions C16_format_plain.
+(* whatever the call chain and the exception: ExceptionInfo's text is the interpreter's rendering
+   (identical entries folded) of the interpreter's entries and type with boltons' own message text *)
+Theorem C16_format_std : forall C fs e, ei_text C fs e = std_text (ei_tb C fs e).
+Proof. exact ei_text_std. Qed.
+Print Assumptions C16_format_std.
 
-(* ... and ParsedException reads it back *)
-Theorem C16_format_reparse : forall C, cc_ok C -> forall fs e,
-  wf C (ei_tb C fs e) = true -> from_string C (ei_text C fs e) = Ok (ei_tb C fs e).
-Proof. exact format_reparse. Qed.
-Print Assumptions C16_format_reparse.
+(* FULL STATEMENT (refuted below, finding C16-recursion-folding-parse): ParsedException reads
+   ExceptionInfo's text back, forall fs e with wf (ei_tb fs e).  Proved without folded entries: *)
+Theorem C16_format_reparse_partial : forall C, cc_ok C -> forall fs e,
+  wf C (ei_tb C fs e) = true -> long_repeat (map (std_frame C) fs) = false ->
+  from_string C (ei_text C fs e) = Ok (ei_tb C fs e).
+Proof. exact format_reparse_partial. Qed.
+Print Assumptions C16_format_reparse_partial.
+
+Theorem C16_format_reparse_refuted :
+  exists fs e, wf py_cc (ei_tb py_cc fs e) = true /\
+               from_string py_cc (ei_text py_cc fs e) <> Ok (ei_tb py_cc fs e).
+Proof. exact format_reparse_refuted. Qed.
+Print Assumptions C16_format_reparse_refuted.
 
 Theorem C16_lineno_always_ok : forall C, cc_ok C -> forall n, lineno_ok C (dec n) = true.
 Proof. exact dec_lineno_ok. Qed.
@@ -140,7 +140,7 @@ Proof. exact rt_sound. Qed.
 Print Assumptions C16_check_sound_roundtrip.
 
 Theorem C16_check_sound_live : forall fs e,
-  long_repeat (map (std_frame P) fs) = false -> plain_exc e = true ->
+  plain_exc e = true ->
   ei_verdict fs e (std_text (std_tb P fs e)) (model_ei fs e) = (true, true, false).
 Proof. exact ei_sound. Qed.
 Print Assumptions C16_check_sound_live.
